@@ -73,7 +73,8 @@ Proof.
   intros hint s c e. unfold create_linked_view.
   destruct (make_links c) as [lk|e0]; simpl; [|congruence].
   destruct (check_structure (keys_of lk)); simpl; [|congruence].
-  destruct (update_view hint s (c_cwd c) (c_prefix c) lk) as [s' [e1|]]; simpl; congruence.
+  destruct (update_view hint s (c_cwd c) (physical (fst s) (c_cwd c) (c_prefix c)) (physical_links (fst s) lk))
+    as [s' [e1|]]; simpl; congruence.
 Qed.
 
 (* the separator guard *)
@@ -236,7 +237,7 @@ Definition model_case (k : case_C17) : case_C17 :=
 Lemma fill_call_inputs : forall k k',
   k_xjobs k' = k_xjobs k -> k_xoracle k' = k_xoracle k -> k_spec k' = k_spec k -> k_call k' = k_call k ->
   fill_call k' = fill_call k.
-Proof. intros k k' H1 H2 H3 H4. unfold fill_call, derive_pf. rewrite H1, H2, H3, H4. reflexivity. Qed.
+Proof. intros k k' H1 H2 H3 H4. unfold fill_call, fill_raw, derive_pf, selected_set. simpl. rewrite H1, H2, H3, H4. reflexivity. Qed.
 
 Lemma model_agreement_transfers : forall k,
   mismatch_C17 k = false -> holds_C17 k = holds_C17 (model_case k).
@@ -250,9 +251,8 @@ Proof.
   apply node_eqb_eq in H2, H4, H7. apply oexn_eqb_eq in H3, H6. apply res_eqb_is_ok in H1.
   apply Bool.eqb_prop in H5.
   rewrite H2, E2. rewrite H4, E3. unfold holds_C17.
-  match goal with |- _ = holds_core _ (fill_call (selected_set ?k')) _ _ _ _ _ _ _ _ =>
-    rewrite (fill_call_inputs (selected_set k) (selected_set k'))
-      by (unfold selected_set; simpl; destruct (dedup_jobs [] (c_jobs (k_call k)) (k_xjobs k)); reflexivity) end.
+  match goal with |- _ = holds_core _ (fill_call ?k') _ _ _ _ _ _ _ _ =>
+    rewrite (fill_call_inputs k k') by reflexivity end.
   simpl.
   rewrite <- H1, <- H3, <- H5, <- H6, <- H7, <- H4, <- H2. reflexivity.
 Qed.
